@@ -38,6 +38,9 @@ static mut POOL: Vec<(usize, fn(usize))> = Vec::new();
 /// counted while a judged release is running
 static PANIC_IN: AtomicUsize = AtomicUsize::new(usize::MAX);
 static ARMED: AtomicUsize = AtomicUsize::new(0);
+/// C09: no allocation-failure injection (the number of allocations a hash table
+/// makes may depend on the addresses it hashes)
+static NO_INJECT: AtomicUsize = AtomicUsize::new(0);
 static PANICKED: AtomicUsize = AtomicUsize::new(0);
 
 #[allow(static_mut_refs)]
@@ -322,6 +325,10 @@ pub struct TypesCase {
     /// during a release panics (once per case)
     #[serde(default)]
     pub panic_in: Option<u8>,
+    /// C09: heap layout of this run when it differs from the one derived from
+    /// `layout_seed` (which also selects log level and failure injection)
+    #[serde(default, skip_serializing_if = "Option::is_none")]
+    pub arena_seed: Option<u64>,
 }
 
 pub const L_ZST: u32 = 0;
@@ -571,6 +578,15 @@ impl<T: Payload> X<T> {
             }
         }
         let ran = XDROPS.load(Ordering::Relaxed) - d0;
+        // C09: what this release destroyed, as a function of the call sequence
+        {
+            let sh = shared();
+            let mut h = sh.digest ^ (sh.op as u64).wrapping_mul(0x9E37_79B9_7F4A_7C15);
+            for &x in &expected {
+                h = (h ^ (x as u64 + 1)).wrapping_mul(0x1_0000_0001_b3);
+            }
+            sh.digest = (h ^ ran as u64).wrapping_mul(31);
+        }
         // observed deaths
         let mut extra = vec![];
         let mut missing = vec![];
@@ -1186,7 +1202,7 @@ impl<T: Payload> X<T> {
 }
 
 fn run_typed<T: Payload>(c: &TypesCase) {
-    arena::seed_layout(c.layout_seed, true);
+    arena::seed_layout(c.arena_seed.unwrap_or(c.layout_seed), true);
     exec::set_log_level_sel(if c.layout_seed & 2 == 2 { 1 + ((c.layout_seed >> 21) % 7) as u8 } else { 0 });
     crate::interp::install_panic_hook();
     cactusref::__verif::reset();
@@ -1196,7 +1212,7 @@ fn run_typed<T: Payload>(c: &TypesCase) {
     let sh = shared();
     let live0 = arena::st().live;
     let mut x = X::<T>::new();
-    arena::st().fail_in = if (c.layout_seed >> 28) & 7 == 0 { 1 + (c.layout_seed >> 32) % 160 } else { 0 };
+    arena::st().fail_in = if (c.layout_seed >> 28) & 7 == 0 && NO_INJECT.load(Ordering::Relaxed) == 0 { 1 + (c.layout_seed >> 32) % 160 } else { 0 };
     for (i, op) in c.xops.iter().enumerate() {
         sh.op = i as u32;
         arena::st().ctx_op = i as u32;
@@ -1327,15 +1343,41 @@ impl Kind for TypesKind {
             .prop_map(move |(ty, layout_seed, xops, cleanup, (pp, pk))| {
                 // C11: only the types that have a destructor are interesting
                 let ty = if panic_pct >= 50 { [1u8, 5, 7, 10, 1, 5, 7, 10, 1, 5, 7, 10][(ty % 12) as usize] } else { ty };
-                TypesCase { ty, layout_seed, xops, cleanup, panic_in: if pp < panic_pct { Some(pk) } else { None } }
+                TypesCase { ty, layout_seed, xops, cleanup, panic_in: if pp < panic_pct { Some(pk) } else { None }, arena_seed: None }
             })
             .boxed()
     }
     fn run(id: &str, _tier: Tier, c: &TypesCase) -> CaseResult {
         let views = props::prop(id).map(|p| p.views).unwrap_or(0) | View::Crash.bit() | View::Mem.bit() | View::LibPanic.bit();
         let views = if std::env::var_os("CX_ALL_VIEWS").is_some() { u32::MAX & !(1 << 31) } else { views };
-        let cc = c.clone();
-        exec::run_forked(views, crate::runner::CASE_TIMEOUT_S, move || body(&cc))
+        NO_INJECT.store(usize::from(id == "C09"), Ordering::Relaxed);
+        let run_once = |arena_seed: Option<u64>| {
+            let mut cc = c.clone();
+            if arena_seed.is_some() {
+                cc.arena_seed = arena_seed;
+            }
+            exec::run_forked(views, crate::runner::CASE_TIMEOUT_S, move || body(&cc))
+        };
+        let mut r = run_once(None);
+        if id == "C09" && (r.outcome == exec::Outcome::Pass || r.outcome == exec::Outcome::OtherView) {
+            // the same history under two more heap layouts: outcome, tolerated
+            // findings of other views and what each release destroyed must agree
+            for k in 1..3u64 {
+                let r2 = run_once(Some(c.layout_seed.wrapping_add(k.wrapping_mul(0xA24B_AED4_963E_E407))));
+                if r2.outcome == exec::Outcome::Timeout || r2.outcome == exec::Outcome::Internal {
+                    return r2;
+                }
+                if r2.outcome != r.outcome || r2.digest != r.digest || (r2.counters[exec::SOFT_COUNTER] > 0) != (r.counters[exec::SOFT_COUNTER] > 0) {
+                    let mut v = if r2.outcome != exec::Outcome::Pass { r2.clone() } else { r.clone() };
+                    v.outcome = exec::Outcome::Violation;
+                    v.view = View::Layout as u32;
+                    v.msg = format!("[layout-dependence] the same history on payload {} behaves differently under two heap layouts (outcomes {:?} / {:?}, digests {:#x} / {:#x}): {}", type_name(c.ty), r.outcome, r2.outcome, r.digest, r2.digest, v.msg);
+                    return v;
+                }
+            }
+            r.outcome = exec::Outcome::Pass;
+        }
+        r
     }
     fn kind_name() -> &'static str {
         "types"
